@@ -93,9 +93,13 @@ def temporal_count(t):
 
 # ------------------------------------------------------------------------------------------ random
 
+def rand_leaf(rng, atoms):
+    return rng.choice(leaves(atoms) + [('ap', a) for a in atoms] * 7)
+
+
 def rand_pl(rng, depth, atoms=ATOMS, nary=True):
     if depth <= 0 or rng.random() < 0.15:
-        return rng.choice(leaves(atoms) + [('ap', a) for a in atoms] * 2)
+        return rand_leaf(rng, atoms)
     op = rng.choice(['not', 'and', 'or', 'imp'])
     if op == 'not':
         return ('not', rand_pl(rng, depth - 1, atoms, nary))
@@ -107,8 +111,8 @@ def rand_pl(rng, depth, atoms=ATOMS, nary=True):
 
 def rand_ctl(rng, depth, atoms=ATOMS, nary=True):
     if depth <= 0 or rng.random() < 0.12:
-        return rng.choice(leaves(atoms) + [('ap', a) for a in atoms] * 3)
-    op = rng.choice(['not', 'and', 'or', 'imp', 'Q1', 'Q1', 'Q1', 'Q2', 'Q2', 'Q2'])
+        return rand_leaf(rng, atoms)
+    op = rng.choice(['not', 'not', 'and', 'and', 'or', 'imp', 'Q1', 'Q1', 'Q1', 'Q1', 'Q2', 'Q2', 'Q2', 'Q2'])
     sub = lambda: rand_ctl(rng, depth - 1, atoms, nary)
     if op == 'not':
         return ('not', sub())
@@ -128,7 +132,7 @@ def rand_ltl_path(rng, depth, atoms=ATOMS, nary=True, max_temporal=4):
 
     def go(d):
         if d <= 0 or rng.random() < 0.12:
-            return rng.choice(leaves(atoms) + [('ap', a) for a in atoms] * 3)
+            return rand_leaf(rng, atoms)
         ops = ['not', 'and', 'or', 'imp']
         if budget[0] > 0:
             ops += ['T1', 'T1', 'T1', 'T2', 'T2', 'T2']
@@ -152,7 +156,7 @@ def rand_ctls_state(rng, depth, atoms=ATOMS, nary=True, max_temporal=3, qdepth=2
     nested state formulas (quantifier nesting <= qdepth)"""
     def state(d, qd):
         if d <= 0 or rng.random() < 0.1:
-            return rng.choice(leaves(atoms) + [('ap', a) for a in atoms] * 3)
+            return rand_leaf(rng, atoms)
         ops = ['not', 'and', 'or', 'imp']
         if qd > 0:
             ops += ['Q'] * 6
@@ -169,7 +173,7 @@ def rand_ctls_state(rng, depth, atoms=ATOMS, nary=True, max_temporal=3, qdepth=2
 
     def path(d, qd, budget):
         if d <= 0 or rng.random() < 0.1:
-            return rng.choice(leaves(atoms) + [('ap', a) for a in atoms] * 3)
+            return rand_leaf(rng, atoms)
         ops = ['not', 'and', 'or', 'imp']
         if budget[0] > 0:
             ops += ['T1', 'T1', 'T1', 'T2', 'T2', 'T2']
